@@ -50,6 +50,7 @@ def heap_sort(name: str):
 apply_fn = z3.Function("apply_fn", Val, SEQV, Val)  # value of a callable on an argument tuple
 gather = z3.Function("gather", MAPV, SEQV, SEQV)  # [m[k] for k in s]
 str_of = z3.Function("str_of", Val, STR)  # str(x)/repr(x)/format: opaque
+seq_remove = z3.Function("seq_remove", SEQV, Val, SEQV)  # sequence with the first occurrence of an element removed
 
 
 def _is_app_of(t, decl) -> bool:
